@@ -8,7 +8,7 @@ Forms:
   ('variant', base, V)               enum downcast
   ('index', base)                    indexing (any index)
   ('const', kind, value, named)      kind in int|fn|other ; named = path of a named const or ''
-  ('call', short, full, (args..))    call result
+  ('call', short, full, (args..), bb) call result (bb = block of the call site)
   ('bin', op, a, b)                  op in Add Sub Mul Div Rem Lt Le Gt Ge Eq Ne BitAnd BitOr BitXor Shl Shr
   ('un', op, a)                      Not Neg PtrMetadata
   ('discr', a)                       discriminant read
@@ -50,7 +50,8 @@ def _is_transparent(sh, full):
 
 
 class Describer:
-    def __init__(self, facts, body, max_depth=60):
+    def __init__(self, facts, body, max_depth=60, stop_named=False):
+        self.stop_named = stop_named
         self.facts = facts
         self.b = body
         self.max_depth = max_depth
@@ -58,7 +59,7 @@ class Describer:
         self.transparent = True
 
     # ---- reaching definitions -------------------------------------------
-    def reaching_defs(self, local, bb, idx):
+    def reaching_defs(self, local, bb, idx, proj=None):
         """definition sites of `local` (whole or partial) that reach statement idx of bb
         (idx = len(stmts) means the terminator)."""
         b = self.b
@@ -104,8 +105,13 @@ class Describer:
             if found is not None:
                 if found not in res:
                     res.append(found)
-                # partial defs do not kill
-                if found[0] in ('field', 'sd', 'callfield'):
+                # partial defs do not kill, unless they define (a prefix of) exactly the wanted projection
+                kills = False
+                if proj is not None and found[0] == 'field' and _proj_prefix(found[3][1], proj):
+                    kills = True
+                if proj is not None and found[0] == 'callfield' and _proj_prefix(found[2].dst[1], proj):
+                    kills = True
+                if found[0] in ('field', 'sd', 'callfield') and not kills:
                     # continue searching above this def
                     if found[0] == 'callfield':
                         stack.append((blk, len(b.blocks[blk]['s'])))
@@ -144,6 +150,8 @@ class Describer:
             return ('env',)
         if depth > self.max_depth:
             return ('local', local, name)
+        if self.stop_named and name and not (1 <= local <= b.argc):
+            return ('local', local, name)
         key = (local, bb, idx)
         if key in self.memo:
             v = self.memo[key]
@@ -177,7 +185,9 @@ class Describer:
         local, proj = p
         b = self.b
         # field-sensitive: partial defs of local.field
-        if proj:
+        if proj and proj[0] != '*':
+            # field-sensitive expansion only for local aggregates; memory reached through a
+            # pointer/reference (`(*_1).f`) stays an opaque field reference
             fd = self._partial(local, proj, bb, idx, depth)
             if fd is not None:
                 return fd
@@ -231,7 +241,7 @@ class Describer:
             return None
         if depth > self.max_depth:
             return None
-        reach = self.reaching_defs(local, bb, idx)
+        reach = self.reaching_defs(local, bb, idx, proj)
         outs = []
         whole = False
         for d in reach:
@@ -294,8 +304,13 @@ class Describer:
         sh = short(c.f) if c.f else '?'
         if self.transparent and args and _is_transparent(sh, c.f):
             return args[0]
+        # comparison operators on non-primitive types are trait calls: normalise to 'bin'
+        if len(args) == 2:
+            m = sh.rsplit('::', 1)[-1]
+            if m in CMP_METHODS and ('PartialOrd' in sh or 'PartialEq' in sh or 'Ord' in (c.tr or '') or 'PartialEq' in (c.tr or '') or 'PartialOrd' in (c.tr or '')):
+                return norm_bin(CMP_METHODS[m], args[0], args[1])
         # method form of the trait for unresolved trait calls
-        return ('call', sh, canon(c.f) if c.f else '', args)
+        return ('call', sh, canon(c.f) if c.f else '', args, c.bb)
 
 
 def _proj_prefix(dp, proj):
@@ -321,6 +336,7 @@ def _dedup(xs):
     return out
 
 
+CMP_METHODS = {'lt': 'Lt', 'le': 'Le', 'gt': 'Gt', 'ge': 'Ge', 'eq': 'Eq', 'ne': 'Ne'}
 COMM = ('Add', 'Mul', 'Eq', 'Ne', 'BitAnd', 'BitOr', 'BitXor')
 FLIP = {'Gt': 'Lt', 'Ge': 'Le'}
 
